@@ -14,10 +14,7 @@ import (
 	"encoding/binary"
 	"fmt"
 	"math/big"
-	"os"
 	"runtime"
-	"runtime/pprof"
-	"time"
 	"sync"
 
 	"github.com/polynetwork/poly/common/config"
@@ -37,11 +34,6 @@ type job struct {
 
 func main() {
 	r := ev.Start("C27", "model_checking")
-	if pf := os.Getenv("C27_PROF"); pf != "" {
-		f, _ := os.Create(pf)
-		pprof.StartCPUProfile(f)
-		go func() { time.Sleep(40 * time.Second); pprof.StopCPUProfile(); f.Close(); os.Exit(0) }()
-	}
 	verifhook.SkipSealFlag = true
 	env := hsenv.Setup(config.NETWORK_ID_MAIN_NET)
 	w := env.NewWorld()
@@ -72,14 +64,18 @@ func main() {
 	}
 	addTrees := func(ad adapter, fam string, nmin, nmax, colours int) {
 		for n := nmin; n <= nmax; n++ {
+			mode := treeMode
+			if n >= 6 {
+				mode = pairsRelated // 6-node trees: batches of two restricted to related headers
+			}
 			for _, sh := range enumShapes(n, colours) {
-				jobs = append(jobs, job{ad, sh, treeMode, fmt.Sprintf("%s/n=%d/c=%d", fam, n, colours)})
+				jobs = append(jobs, job{ad, sh, mode, fmt.Sprintf("%s/n=%d/c=%d", fam, n, colours)})
 			}
 		}
 	}
 	// --- ETH small trees
-	dts2 := []uint64{5, 20}      // +1/2048 and -1/2048 of parent difficulty; equal colours under one parent = TD tie
-	dts3 := []uint64{5, 20, 10}  // ... and unchanged difficulty
+	dts2 := []uint64{5, 20}     // +1/2048 and -1/2048 of parent difficulty; equal colours under one parent = TD tie
+	dts3 := []uint64{5, 20, 10} // ... and unchanged difficulty
 	pre := func(d []uint64) *ethAd { return &ethAd{"pre-london", 10_000_000, D, d} }
 	if r.Quick() {
 		addTrees(pre(dts2), "eth-tree/pre-london", 1, 5, 2)
@@ -175,6 +171,10 @@ func main() {
 			r.Require("eth:"+c, "btc:"+c)
 		}
 	}
+	batchNote := "trees: all ordered pairs (<=5 nodes), related pairs (6 nodes); fork pairs: frontier events per fork"
+	if r.Quick() {
+		batchNote = "trees: related pairs (self, parent/child in both orders, grandparent/grandchild); fork pairs: frontier events per fork"
+	}
 	fam := map[string]any{}
 	for k, v := range tot {
 		fam[k] = map[string]int{"trees": trees[k], "states": v.states, "transitions": v.trans}
@@ -183,13 +183,13 @@ func main() {
 		"BTC: regtest/simnet side chains (real proof of work at the net's limit; the handler skips the retarget rule on these nets). testnet3/mainnet need ~2^32 hashes per header and are not driven",
 		"header timestamps are in the past, so the wall-clock future-block test is constant")
 	r.Finish(map[string]any{
-		"rule":        "every coloured block tree up to the bound x every submission sequence (BFS to fixpoint over the contract storage dump): stored-header/parent/height/TD-sum, canonical index gap-free+parent-linked root..head, head TD maximal, re-submission and rejected submissions change nothing, stored set == model",
-		"bounds":      map[string]any{"tier": r.Tier, "eth_tree_nodes_max": r.QT(5, 6), "eth_forkpair_lengths": []int{la, lb}, "btc_tree_nodes_max": r.QT(5, 6), "batch_sizes": []int{1, 2}},
-		"trees":       len(jobs),
-		"families":    fam,
-		"states":      states,
-		"transitions": trans,
+		"rule":                          "every coloured block tree up to the bound x every submission sequence (BFS to fixpoint over the contract storage dump): stored-header/parent/height/TD-sum, canonical index gap-free+parent-linked root..head, head TD maximal, re-submission and rejected submissions change nothing, stored set == model",
+		"bounds":                        map[string]any{"tier": r.Tier, "batch_pairs": batchNote, "eth_tree_nodes_max": r.QT(5, 6), "eth_forkpair_lengths": []int{la, lb}, "btc_tree_nodes_max": r.QT(5, 6), "batch_sizes": []int{1, 2}},
+		"trees":                         len(jobs),
+		"families":                      fam,
+		"states":                        states,
+		"transitions":                   trans,
 		"traces_validated_against_impl": trans,
-		"max_depth":   maxDepth,
+		"max_depth":                     maxDepth,
 	})
 }
